@@ -25,6 +25,8 @@ HOW = ("case_from_json(case); dims = cube_aggs.build_dims; replace dims[d] by di
 def pick_fmt(rng, c):
     while True:
         fmt = rng.choice(FORMATS)
+        if c.get("unit") and c["kind"] == "valid_count" and fmt[0] == "plain":
+            continue            # the plain-0 shortcut snaps weighted counts below 1e-8 to 0 (documented shortcut / exclusion)
         if not ca.is_shortcut(c, fmt):
             return fmt
 
@@ -187,7 +189,7 @@ def run(ctx):
                 "rare categories of 1-3 rows - dyadic or decimal weights) re-encodes every dimension to every value incl. the rare and an "
                 "absent one, so the dominant category becomes a stored entry; those calls go to Coq only while the literal stays small "
                 "(theorems are size-independent), else they are judged by the exact oracle and against the original encoding only and "
-                "counted as oracle_only_calls; the FORM of every argument (fact / weight dtype, layout, container; how the iindex is built) varies in about "
+                "counted as oracle_only_calls; a unit stream (cases whose facts / weights are multiplied by 2**-60..2**40 - exact - or 1e-5 / 1e-9 / 1e-11 - tolerance relative to the grand total of the scaled terms, no absolute floor), every dimension re-encoded as above; the FORM of every argument (fact / weight dtype, layout, container; how the iindex is built) varies in about "
                 "60 % of the cases as in C03 (tags form:*); a case = one (re-encoded cube or block, call) literal; non-trivial when N > 0 and the new common differs "
                 "from the stored one")
     ctx.trusted = list(core.STD_TRUSTED) + [
@@ -328,6 +330,14 @@ def run(ctx):
         if i % 4:
             rc_["rel"]["scenario"] = "shift-in-place"
         ca.run_relations(S, rc_, pick_fmt(rng, rc_))
+    for i in range(1200 if thorough else 110):
+        for uc, ff, wf in ca.unit_variants(rng, None):
+            if not uc["exts"]:
+                break
+            if ff == 1 and wf == 1 and i % 3:
+                continue
+            S.count("unit:fact x %g, weight x %g" % (float(ff), float(wf)))
+            one(uc)
     n_scale = 900 if thorough else 70
     for i in range(n_scale):
         one(ca.scale_case(rng, decimal=(i % 3 == 2)))
